@@ -5,6 +5,7 @@ import (
 	"database/sql"
 	"errors"
 	"fmt"
+	"os"
 	"regexp"
 	"sort"
 	"strings"
@@ -353,3 +354,12 @@ func ErrClass(err string) string {
 	}
 	return s
 }
+
+// RemoveDB removes a database file and its journal / WAL side files.
+func RemoveDB(path string) {
+	for _, sfx := range []string{"", "-journal", "-wal", "-shm"} {
+		os.Remove(path + sfx)
+	}
+}
+
+func removeDB(path string) { RemoveDB(path) }
